@@ -86,6 +86,18 @@ CHECKS = {
         note='proved: regrouping decision logic (unbounded counts). Correspondence: IID1 element numbers/groups of real files vs the model. '
              'Only SIDD 2 structures are generated (versions 1 and 3 share the code paths but are not exercised). ' + TB,
         technique='Lean 4 proof (induction over image list) + write/read differential + out-of-band NITF parser'),
+    'C09': dict(
+        text='Lean 4 theorems about the CPHD block layout as make_file_header computes it, for all sizes: _align rounds up to a multiple of '
+             '64 by less than 64; XML (+ terminator), [SUPPORT], PVP and SIGNAL are ordered and non-overlapping, each data block is 64-byte '
+             'aligned with padding < 64; whenever the retry rule returns a layout, header text and terminator end before the XML block; for '
+             'packed relative offsets the per-channel / per-array ranges tile their block. Each generated file is parsed by an independent '
+             'byte-level parser and reopened through open_phase_history (PVP fields, support arrays, raw and formatted signal incl. '
+             'sub-regions, metadata), and the header sarpy computed is compared with the model.',
+        design='DESIGN.md 6/C09',
+        note='proved: layout arithmetic. The header-text length and the retry recursion are modelled abstractly (fuel). Correspondence: header '
+             'numbers of written files vs model; differential write/read over channels x formats x AmpSF x support arrays x non-ASCII text x '
+             'write orders x targets. No signal compression. ' + TB,
+        technique='Lean 4 proof (omega over alignment arithmetic, induction on retry fuel) + byte-level parser + write/read differential'),
 }
 
 
